@@ -510,6 +510,13 @@ func (e *engine) probeDefects() {
 		c.Known(tagStale, e.def.stale, m)
 	}
 	wrapPresent = e.def.wrap
+	e.def.truncIgnored, m = safely(witnessTruncIgnored)
+	if e.def.truncIgnored {
+		c.Stat("probe.o_trunc-ignored")
+		c.Note("OpenFile ignores O_TRUNC on this tree (%s): no O_TRUNC opens in the histories", m)
+	} else {
+		c.Stat("probe.o_trunc-honoured")
+	}
 	e.def.rmStale, m = safely(func() (bool, string) { return witnessRmStale(c.Scratch, e.fsck) })
 	c.Known(tagRmStale, e.def.rmStale, m)
 	e.def.trail, m = safely(witnessTrail)
@@ -542,6 +549,8 @@ func (e *engine) probeDefects() {
 		c.Known(tagDealloc, e.def.dealloc, m)
 		defWriteLeak, m = safely(func() (bool, string) { return witnessWriteLeak(c.Scratch) })
 		c.Known(tagWriteLeak, defWriteLeak, m)
+		defMkdirFull, m = safely(func() (bool, string) { return witnessMkdirFull(c.Scratch) })
+		c.Known(tagMkdirFull, defMkdirFull, m)
 	} else {
 		c.Known(tagRemove, treeBroken, tm)
 	}
